@@ -55,6 +55,10 @@ pub struct Ctx {
     pub point_log: Vec<(usize, usize, u32, &'static str)>,
     parked: Option<&'static str>,
     crash: bool,
+    /// victim processes only: SIGKILL this process on arrival at (node, action, ordinal)
+    pub kill_at: Option<(usize, usize, u32)>,
+    /// victim processes only: report every returned commit on stdout
+    pub report_commits: bool,
 }
 
 impl Ctx {
@@ -72,6 +76,8 @@ impl Ctx {
             point_log: Vec::new(),
             parked: None,
             crash: false,
+            kill_at: None,
+            report_commits: false,
         }
     }
 }
@@ -108,6 +114,9 @@ pub fn fault_point(label: &'static str) -> Decision {
         let n = c.cur_node;
         let ord = c.ordinal[n];
         c.ordinal[n] += 1;
+        if c.kill_at == Some((n, c.action_idx[n], ord)) {
+            kill_self();
+        }
         *c.points.entry(label).or_insert(0) += 1;
         let d = c.faults.get(&(n, c.action_idx[n], ord)).copied().unwrap_or(Decision::Proceed);
         if c.record_points {
@@ -244,4 +253,25 @@ pub fn step(n: usize, fut: &mut NodeFut) -> PollOutcome {
     };
     with_ctx(|c| c.active = false);
     out
+}
+
+/// SIGKILL the current process (victim processes of the crash sweeps).
+pub fn kill_self() -> ! {
+    unsafe {
+        libc::kill(libc::getpid(), libc::SIGKILL);
+        loop {
+            libc::pause();
+        }
+    }
+}
+
+/// Called by the storage seam right after a real commit returned Ok.
+pub fn commit_returned() {
+    let report = with_ctx(|c| c.report_commits).unwrap_or(false);
+    if report {
+        let msg = b"C\n";
+        unsafe {
+            libc::write(1, msg.as_ptr() as *const libc::c_void, msg.len());
+        }
+    }
 }
